@@ -1,2 +1,372 @@
-(* C10 statements pinned here *)
-From A1 Require Import Per.Prim Per.X691.
+(* C10 — the public packed-encoding primitives produce the X.691 bit pattern for every
+   admissible argument tuple, read it back to the same value consuming the same number of
+   bits, and reject inadmissible arguments with an error (statements pinned here; proofs
+   in Per/Proofs.v).  Model: Per/Prim.v; reference: Per/X691.v; both cargo profiles
+   ([forall m : mode]).
+
+   Vocabulary (Per/Proofs.v):
+     [at_src s w tail]  the source [s] is positioned at the start of [w ++ tail] and [w] lies
+                        within its declared length and its slice;
+     [src_adv s n tail] [s] advanced by [n] bits with [tail] left to read; [bl w] = bit length;
+     [nn_bounded lb ub] at least one bound is given;  [fits k v] = v is representable in k bits
+     (2's complement); [twos_bits k v] = the k-bit 2's-complement pattern of v;
+     [len_frag ub v] / [len_result ub v] = the fragment size the length writer reports / the
+     count the length reader reports (the first fragment's size for counts of 16K or more);
+     [np r] = r is not a panic.
+   Known classes (the model reproduces the crate; see the [C10_refuted_*] witnesses):
+     [Known_C10_length_semi_or_large_bound lb ub]  (F10-1) a lower bound without an upper bound,
+         or an upper bound of 64K or more;
+     [Known_C10_sized_length lb ub n]  an in-root size whose length determinant is in F10-1;
+     [Known_C10_bitstring_16k lb ub n] (F10-2) a BIT STRING of 16K bits or more encoded with the
+         unconstrained length form. *)
+From A1 Require Import Per.Prim Per.X691 Per.Proofs.
+Local Open Scope N_scope.
+
+(** * 1. constrained whole number (11.5) *)
+Theorem C10_constrained_write : forall m lb ub v,
+  is_i64 lb -> is_i64 ub -> (lb <= v <= ub)%Z ->
+  exists bs, w_constrained m lb ub v = Ok bs /\ x_constrained lb ub v = Some bs.
+Proof. exact constrained_write. Qed.
+
+Theorem C10_constrained_reject : forall m lb ub v,
+  (v < lb \/ ub < v)%Z -> w_constrained m lb ub v = Err E_VALUE_RANGE.
+Proof. exact constrained_reject. Qed.
+
+Theorem C10_constrained_read : forall m lb ub v bs s tail,
+  is_i64 lb -> is_i64 ub -> (lb <= v <= ub)%Z ->
+  x_constrained lb ub v = Some bs -> at_src s bs tail ->
+  r_constrained m lb ub s = Ok (v, src_adv s (bl bs) tail).
+Proof. exact constrained_read. Qed.
+
+(** * 2. non-negative-binary-integer (11.3), bounded and minimal-octets forms *)
+Theorem C10_nnbi_write : forall m lb ub v,
+  nn_bounded lb ub -> opt_or ub I64_MAX < two64 ->
+  opt_or lb 0 <= v <= opt_or ub I64_MAX ->
+  exists bs, w_nnbi m lb ub v = Ok bs /\
+    x_constrained (Z.of_N (opt_or lb 0)) (Z.of_N (opt_or ub I64_MAX)) (Z.of_N v) = Some bs.
+Proof. exact nnbi_write. Qed.
+
+Theorem C10_nnbi_reject : forall m lb ub v,
+  nn_bounded lb ub -> v < opt_or lb 0 \/ opt_or ub I64_MAX < v ->
+  w_nnbi m lb ub v = Err E_VALUE_RANGE.
+Proof. exact w_nnbi_reject. Qed.
+
+Theorem C10_nnbi_read : forall m lb ub v bs s tail,
+  nn_bounded lb ub -> opt_or ub I64_MAX < two64 ->
+  x_constrained (Z.of_N (opt_or lb 0)) (Z.of_N (opt_or ub I64_MAX)) (Z.of_N v) = Some bs ->
+  at_src s bs tail ->
+  r_nnbi m lb ub s = Ok (v, src_adv s (bl bs) tail).
+Proof. exact nnbi_read. Qed.
+
+Theorem C10_nnbi_unbounded_write : forall m v, v < two64 ->
+  w_nnbi m None None v = Ok (x_len_short (noctets v) ++ field (8 * noctets v) v).
+Proof. exact w_nnbi_unbounded. Qed.
+
+Theorem C10_nnbi_unbounded_read : forall m v s tail, v < two64 ->
+  let w := x_len_short (noctets v) ++ field (8 * noctets v) v in
+  at_src s w tail -> r_nnbi m None None s = Ok (v, src_adv s (bl w) tail).
+Proof. exact r_nnbi_unbounded. Qed.
+
+(** * 3. normally small (11.6), semi-constrained (11.7), unconstrained (11.8) whole numbers *)
+Theorem C10_normally_small_write : forall m v, v < two64 ->
+  w_normally_small m v = Ok (x_normally_small v).
+Proof. exact normally_small_write. Qed.
+
+Theorem C10_normally_small_read : forall m v s tail, v < two64 ->
+  at_src s (x_normally_small v) tail ->
+  r_normally_small m s = Ok (v, src_adv s (bl (x_normally_small v)) tail).
+Proof. exact normally_small_read. Qed.
+
+Theorem C10_semi_constrained_write : forall m lb v, is_i64 lb -> is_i64 v -> (lb <= v)%Z ->
+  exists bs, w_semi_constrained m lb v = Ok bs /\ x_semi_constrained lb v = Some bs.
+Proof. exact semi_constrained_write. Qed.
+
+Theorem C10_semi_constrained_reject : forall m lb v, (v < lb)%Z ->
+  w_semi_constrained m lb v = Err E_VALUE_RANGE /\ x_semi_constrained lb v = None.
+Proof. exact semi_constrained_reject. Qed.
+
+Theorem C10_semi_constrained_read : forall m lb v bs s tail,
+  is_i64 lb -> is_i64 v -> (lb <= v)%Z ->
+  x_semi_constrained lb v = Some bs -> at_src s bs tail ->
+  r_semi_constrained m lb s = Ok (v, src_adv s (bl bs) tail).
+Proof. exact semi_constrained_read. Qed.
+
+Theorem C10_unconstrained_write : forall m v, is_i64 v ->
+  w_unconstrained m v = Ok (x_unconstrained v).
+Proof. exact unconstrained_write. Qed.
+
+Theorem C10_unconstrained_read : forall m v s tail, is_i64 v ->
+  at_src s (x_unconstrained v) tail ->
+  r_unconstrained m s = Ok (v, src_adv s (bl (x_unconstrained v)) tail).
+Proof. exact unconstrained_read. Qed.
+
+(** * 4. enumeration / choice index (14, 23) *)
+Theorem C10_index_write : forall m std ext i bs, std < two64 -> i < two64 ->
+  x_index std ext i = Some bs -> w_enumeration_index m std ext i = Ok bs.
+Proof. exact index_write. Qed.
+
+Theorem C10_index_reject : forall m std ext i,
+  x_index std ext i = None -> w_enumeration_index m std ext i = Err E_INVALID_CHOICE.
+Proof. exact index_reject. Qed.
+
+Theorem C10_index_inadmissible : forall std ext i,
+  x_index std ext i = None <-> std <= i /\ ext = false.
+Proof. exact x_index_none. Qed.
+
+Theorem C10_index_read : forall m std ext i bs s tail, std < two64 -> i < two64 ->
+  x_index std ext i = Some bs -> at_src s bs tail ->
+  r_enumeration_index m std ext s = Ok (i, src_adv s (bl bs) tail).
+Proof. exact index_read. Qed.
+
+Theorem C10_index_read_empty : forall m s,
+  r_enumeration_index m 0 false s = Err E_INVALID_CHOICE.
+Proof. exact index_read_empty. Qed.
+
+(** * 5. length determinant (11.9), outside F10-1 *)
+Theorem C10_length_write : forall m lb ub v bs,
+  ~ Known_C10_length_semi_or_large_bound lb ub ->
+  x_length lb ub v = Some bs ->
+  w_length_determinant m lb ub v = Ok (bs, len_frag ub v).
+Proof. exact length_write. Qed.
+
+Theorem C10_length_fragment : forall v,
+  len_frag None v = (if v <? 16384 then None else Some (N.min (v / 16384) 4 * 16384))
+  /\ forall u, len_frag (Some u) v = None.
+Proof. exact length_fragment. Qed.
+
+Theorem C10_length_reject : forall m lb ub v,
+  ~ Known_C10_length_semi_or_large_bound lb ub ->
+  x_length lb ub v = None -> w_length_determinant m lb ub v = Err E_VALUE_RANGE.
+Proof. exact length_reject. Qed.
+
+Theorem C10_length_read : forall m lb ub v bs s tail,
+  ~ Known_C10_length_semi_or_large_bound lb ub ->
+  x_length lb ub v = Some bs -> at_src s bs tail ->
+  r_length_determinant m lb ub s = Ok (len_result ub v, src_adv s (bl bs) tail).
+Proof. exact length_read. Qed.
+
+Theorem C10_refuted_length_semi_or_large_bound :
+  exists m lb ub v bs, Known_C10_length_semi_or_large_bound lb ub /\
+    x_length lb ub v = Some bs /\ w_length_determinant m lb ub v <> Ok (bs, None)
+    /\ is_ok (w_length_determinant m lb ub v) = true.
+Proof. exact refuted_length_semi_or_large_bound. Qed.
+
+Theorem C10_refuted_length_large_bound :
+  exists m lb ub v bs, Known_C10_length_semi_or_large_bound lb ub /\ lb = None /\
+    x_length lb ub v = Some bs /\ w_length_determinant m lb ub v <> Ok (bs, None)
+    /\ is_ok (w_length_determinant m lb ub v) = true.
+Proof. exact refuted_length_large_bound. Qed.
+
+(** * 6. OCTET STRING (17), every length, with 16K fragmentation *)
+Theorem C10_octetstring_write : forall m lb ub extensible bytes,
+  blen bytes < two63 -> ~ Known_C10_sized_length lb ub (blen bytes) ->
+  w_octetstring m lb ub extensible bytes =
+  match x_octetstring lb ub extensible bytes with Some bs => Ok bs | None => Err E_SIZE_RANGE end.
+Proof. exact octetstring_write. Qed.
+
+Theorem C10_octetstring_write_ext : forall m lb ub bytes,
+  blen bytes < two63 -> blen bytes < opt_or lb 0 \/ opt_or ub I64_MAX < blen bytes ->
+  let bs := true :: x_unconstrained_length_run 8 (blen bytes) (bits_of_bytes bytes) in
+  w_octetstring m lb ub true bytes = Ok bs /\ x_octetstring lb ub true bytes = Some bs.
+Proof. exact octetstring_write_ext. Qed.
+
+Theorem C10_octetstring_reject : forall m lb ub bytes,
+  blen bytes < opt_or lb 0 \/ opt_or ub I64_MAX < blen bytes ->
+  w_octetstring m lb ub false bytes = Err E_SIZE_RANGE.
+Proof. exact octetstring_reject. Qed.
+
+Theorem C10_octetstring_read : forall m lb ub extensible bytes bs s tail,
+  blen bytes <= ALLOC_LIMIT -> ~ Known_C10_sized_length lb ub (blen bytes) ->
+  x_octetstring lb ub extensible bytes = Some bs -> at_src s bs tail ->
+  r_octetstring m lb ub extensible s = Ok (bits_of_bytes bytes, src_adv s (bl bs) tail).
+Proof. exact octetstring_read. Qed.
+
+Theorem C10_refuted_octetstring_sized_length :
+  exists m lb ub bytes bs, Known_C10_sized_length lb ub (blen bytes) /\
+    x_octetstring lb ub false bytes = Some bs /\ w_octetstring m lb ub false bytes <> Ok bs
+    /\ is_ok (w_octetstring m lb ub false bytes) = true.
+Proof. exact refuted_octetstring_sized_length. Qed.
+
+(** * 7. BIT STRING (16) writer, outside F10-1 and F10-2 *)
+Theorem C10_bitstring_write : forall m lb ub extensible bytes offset len,
+  offset + len <= 8 * blen bytes -> len < two63 ->
+  ~ Known_C10_sized_length lb ub len -> ~ Known_C10_bitstring_16k lb ub len ->
+  w_bitstring m lb ub extensible bytes offset len =
+  match x_bitstring lb ub extensible
+          (firstn (N.to_nat len) (skipn (N.to_nat offset) (bits_of_bytes bytes))) with
+  | Some bs => Ok bs | None => Err E_SIZE_RANGE end.
+Proof. exact bitstring_write. Qed.
+
+Theorem C10_bitstring_read : forall m lb ub extensible content bs s tail,
+  bl content <= ALLOC_LIMIT ->
+  ~ Known_C10_sized_length lb ub (bl content) -> ~ Known_C10_bitstring_16k lb ub (bl content) ->
+  x_bitstring lb ub extensible content = Some bs -> at_src s bs tail ->
+  r_bitstring m lb ub extensible s =
+  Ok (content, bl content, (bl content + 7) / 8, src_adv s (bl bs) tail).
+Proof. exact bitstring_read. Qed.
+
+Theorem C10_bitstring_reject : forall m lb ub bytes offset len,
+  len < opt_or lb 0 \/ opt_or ub I64_MAX < len ->
+  w_bitstring m lb ub false bytes offset len = Err E_SIZE_RANGE.
+Proof. exact bitstring_reject. Qed.
+
+Theorem C10_refuted_bitstring_16k :
+  exists m lb ub bytes offset len,
+    Known_C10_bitstring_16k lb ub len /\ offset + len <= 8 * blen bytes /\
+    bitstring_8_bits_short m lb ub bytes offset len = true.
+Proof. exact refuted_bitstring_16k. Qed.
+
+(** * 8. 2's-complement-binary-integer (11.4) in a field of [k] bits *)
+Theorem C10_twos_write : forall m k v, 1 <= k <= 64 -> fits k v ->
+  w_2s_compliment m k v = Ok (twos_bits k v).
+Proof. exact twos_write. Qed.
+
+Theorem C10_twos_octets : forall o v, twos_bits (8 * o) v = twos_field o v.
+Proof. exact twos_octets_eq. Qed.
+
+Theorem C10_twos_reject_len : forall m k v, k = 0 \/ 64 < k ->
+  w_2s_compliment m k v = Err E_BITLEN_RANGE.
+Proof. exact twos_reject_len. Qed.
+
+Theorem C10_twos_reject_val : forall m k v, 1 <= k <= 64 -> ~ fits k v ->
+  w_2s_compliment m k v = Err E_VALUE_RANGE.
+Proof. exact twos_reject_val. Qed.
+
+Theorem C10_twos_read : forall k v s tail, 1 <= k <= 64 -> fits k v ->
+  at_src s (twos_bits k v) tail ->
+  r_2s_compliment k s = Ok (v, src_adv s k tail).
+Proof. exact twos_read. Qed.
+
+(** * 9. no panics: every writer on every argument tuple; readers on arbitrary sources *)
+Theorem C10_no_panic_writers : forall m,
+  (forall lb ub v, np (w_nnbi m lb ub v)) /\
+  (forall lb ub v, np (w_length_determinant m lb ub v)) /\
+  (forall k v, np (w_2s_compliment m k v)) /\
+  (forall lb ub v, np (w_constrained m lb ub v)) /\
+  (forall v, np (w_normally_small m v)) /\
+  (forall lb v, np (w_semi_constrained m lb v)) /\
+  (forall v, np (w_unconstrained m v)) /\
+  (forall std ext i, np (w_enumeration_index m std ext i)) /\
+  (forall lb ub ext bytes, np (w_octetstring m lb ub ext bytes)) /\
+  (forall lb ub ext bytes offset len, np (w_bitstring m lb ub ext bytes offset len)).
+Proof. exact no_panic_writers. Qed.
+
+Theorem C10_no_panic_readers : forall m s,
+  np (r_nnbi m None None s) /\
+  (forall lb ub, nn_bounded lb ub ->
+     opt_or lb 0 + 2 ^ N.size (opt_or ub I64_MAX - opt_or lb 0) <= two64 -> np (r_nnbi m lb ub s)) /\
+  (forall lb ub, opt_or lb 0 < two64 -> ~ Known_C10_length_semi_or_large_bound lb ub ->
+     np (r_length_determinant m lb ub s)) /\
+  (forall k, np (r_2s_compliment k s)) /\
+  (forall lb ub, np (r_constrained m lb ub s)) /\
+  np (r_normally_small m s) /\
+  (forall lb, np (r_semi_constrained m lb s)) /\
+  np (r_unconstrained m s) /\
+  (forall std ext, std < two64 -> np (r_enumeration_index m std ext s)).
+Proof. exact no_panic_readers. Qed.
+
+(* OCTET STRING reader on an arbitrary source: outside F10-1 no decoded count can reach the
+   allocation limit (F10-3 lives inside F10-1) and the fragment loop terminates *)
+Theorem C10_no_panic_octetstring_read : forall m lb ub extensible s,
+  ~ Known_C10_length_semi_or_large_bound lb ub -> opt_or lb 0 <= opt_or ub I64_MAX ->
+  np (r_octetstring m lb ub extensible s).
+Proof. exact r_octetstring_np. Qed.
+
+Theorem C10_refuted_octetstring_alloc :
+  exists m lb bytes,
+    r_octetstring m (Some lb) None false (src_of_bytes bytes (8 * blen bytes)) = Panic P_CAPACITY.
+Proof. exact refuted_octetstring_alloc. Qed.
+
+(* BIT STRING reader on an arbitrary source: with an upper bound below 64K and no extension
+   marker no fragment loop is entered; otherwise F10-2 applies on the read side too *)
+Theorem C10_no_panic_bitstring_read_bounded : forall m lb u s,
+  u < 65536 -> opt_or lb 0 <= u -> np (r_bitstring m lb (Some u) false s).
+Proof. exact r_bitstring_np. Qed.
+
+Theorem C10_refuted_bitstring_read_16k :
+  exists bytes,
+    r_bitstring dev_mode None None false (src_of_bytes bytes (8 * blen bytes)) = Panic P_ARITH.
+Proof. exact refuted_bitstring_read_16k. Qed.
+
+(* the extension branch of the index reader adds std_variants with a checked addition: the input
+   that used to overflow (extension bit, normally small number 2^64-1) is an error in both profiles *)
+Theorem C10_index_read_overflow_is_error :
+  let bytes := [194; 63; 255; 255; 255; 255; 255; 255; 255; 192] in
+  forall m, r_enumeration_index m 3 true (src_of_bytes bytes (8 * blen bytes)) = Err E_INVALID_CHOICE.
+Proof. exact index_read_overflow_is_error. Qed.
+
+(* reader panic on hostile input found beyond the known classes (dev profile, unchecked `+`) *)
+Theorem C10_refuted_nnbi_read_overflow :
+  exists lb ub bytes, lb < ub /\ ub < two64 /\
+    r_nnbi dev_mode (Some lb) (Some ub) (src_of_bytes bytes (8 * blen bytes)) = Panic P_ARITH.
+Proof. exact refuted_nnbi_read_overflow. Qed.
+
+(** * non-vacuity *)
+Example C10_nonvacuous :
+  (* INTEGER (-5..MAX), value MAX: a 64-bit field *)
+  w_constrained dev_mode (-5) 9223372036854775807 9223372036854775807
+    = Ok (field 64 9223372036854775812)
+  /\ x_constrained (-5) 9223372036854775807 9223372036854775807 = Some (field 64 9223372036854775812)
+  (* a 3-octet string, unconstrained *)
+  /\ w_octetstring release_mode None None false [1; 2; 3]
+    = Ok (bits_of_bytes [3; 1; 2; 3])
+  /\ x_octetstring None None false [1; 2; 3] = Some (bits_of_bytes [3; 1; 2; 3])
+  (* index 70 of an extensible 3-item enumeration *)
+  /\ w_enumeration_index dev_mode 3 true 70 = Ok (true :: true :: bits_of_bytes [1; 67])
+  /\ x_index 3 true 70 = Some (true :: true :: bits_of_bytes [1; 67])
+  (* length 300, unconstrained *)
+  /\ w_length_determinant dev_mode None None 300 = Ok (true :: false :: field 14 300, None)
+  (* reading back from a concrete source *)
+  /\ (let s := src_of_bits (field 4 9 ++ [true]) 5 in
+      at_src s (field 4 9) [true]
+      /\ r_constrained dev_mode 1 16 s = Ok (10%Z, src_adv s 4 [true])).
+Proof. vm_compute. repeat split; discriminate. Qed.
+
+Print Assumptions C10_constrained_write.
+Print Assumptions C10_constrained_reject.
+Print Assumptions C10_constrained_read.
+Print Assumptions C10_nnbi_write.
+Print Assumptions C10_nnbi_reject.
+Print Assumptions C10_nnbi_read.
+Print Assumptions C10_nnbi_unbounded_write.
+Print Assumptions C10_nnbi_unbounded_read.
+Print Assumptions C10_normally_small_write.
+Print Assumptions C10_normally_small_read.
+Print Assumptions C10_semi_constrained_write.
+Print Assumptions C10_semi_constrained_reject.
+Print Assumptions C10_semi_constrained_read.
+Print Assumptions C10_unconstrained_write.
+Print Assumptions C10_unconstrained_read.
+Print Assumptions C10_index_write.
+Print Assumptions C10_index_reject.
+Print Assumptions C10_index_inadmissible.
+Print Assumptions C10_index_read.
+Print Assumptions C10_index_read_empty.
+Print Assumptions C10_length_write.
+Print Assumptions C10_length_fragment.
+Print Assumptions C10_length_reject.
+Print Assumptions C10_length_read.
+Print Assumptions C10_refuted_length_semi_or_large_bound.
+Print Assumptions C10_refuted_length_large_bound.
+Print Assumptions C10_octetstring_write.
+Print Assumptions C10_octetstring_write_ext.
+Print Assumptions C10_octetstring_reject.
+Print Assumptions C10_refuted_octetstring_sized_length.
+Print Assumptions C10_octetstring_read.
+Print Assumptions C10_bitstring_write.
+Print Assumptions C10_bitstring_read.
+Print Assumptions C10_bitstring_reject.
+Print Assumptions C10_refuted_bitstring_16k.
+Print Assumptions C10_twos_write.
+Print Assumptions C10_twos_octets.
+Print Assumptions C10_twos_reject_len.
+Print Assumptions C10_twos_reject_val.
+Print Assumptions C10_twos_read.
+Print Assumptions C10_no_panic_writers.
+Print Assumptions C10_no_panic_readers.
+Print Assumptions C10_no_panic_octetstring_read.
+Print Assumptions C10_refuted_octetstring_alloc.
+Print Assumptions C10_no_panic_bitstring_read_bounded.
+Print Assumptions C10_refuted_bitstring_read_16k.
+Print Assumptions C10_index_read_overflow_is_error.
+Print Assumptions C10_refuted_nnbi_read_overflow.
